@@ -31,7 +31,7 @@ ASSUMPTIONS = [
 ]
 DECIDING = ['bp.app.bpsec:Bpsec._verify_bib', 'bp.app.bpsec:Bpsec._verify_bcb', 'bp.app.bpsec:CoseContext.verify_bib',
             'bp.app.bpsec:CoseContext.verify_bcb', 'bp.app.bpsec:CoseSecOpCtx.check_secblk', 'bp.agent:Agent.recv_bundle']
-REQUIRED_OBS = ['bundles', 'expect_fail', 'expect_deliver', 'reports_with_security_reason', 'accepted_blocks_removed', 'bcb_plaintext_released']
+REQUIRED_OBS = ['bundles', 'expect_fail', 'expect_deliver', 'reports_with_security_reason', 'accepted_blocks_removed', 'bcb_plaintext_released', 'fragmented_signed']
 
 SEC_REASONS = {12, 13, 14, 15, 16}
 CLASSES = ['valid', 'valid-scope', 'dup-params-apart', 'none', 'wrong-tag', 'unknown-kid', 'altered-target', 'altered-primary', 'unknown-context', 'missing-target',
